@@ -8,7 +8,13 @@
 3. monitor: the `durable` predicate re-implemented in Python runs over every REAL trace; its verdicts are
    cross-checked against Coq's `durableb` on the real traces and on mutated traces (an fsync dropped, an
    fsync moved behind the rename), so that the Python twin and the Coq definition are the same predicate
-4. whole-collection uploads of n items for a range of n."""
+4. whole-collection uploads of n items for a range of n
+5. several directory levels created at once: the storage API called with a missing parent chain (modelled: the same
+   program as MKCALENDAR), a predefined collection with a nested name at the first login (monitor only), and the first
+   start on a nested storage location that does not exist -- the traced phase begins BEFORE the Application is
+   constructed and the projection is rebased on the existing ancestor, so that the entries of the ancestors, of the
+   storage folder and of collection-root fall under the durability rules (monitor only, cross-checked with durableb)
+6. EXDEV injected into the rename of item moves: whatever path the server takes then, a success answer needs a durable trace."""
 import os
 
 from vlib import core
@@ -77,9 +83,14 @@ def _run(ctx, base):
         for lay in lays:
             cases.append(("warm", lay, name))
             cases.append(("warm", lay, name2))
+    for o in B.extra_requests():
+        cases.append(("warm", (False, False), o))
+        if not ctx.quick:
+            cases.append(("cold", (True, True), o))
     ctx.log("baseline: %d traced requests" % len(cases))
     with C.pool() as p:
         recs = C.baseline(ctx, base, cases, p)
+        starts = p.map(B.startup_run, [(base, o) for o in B.startup_requests()], chunksize=1)
     bad_corr = []
     real_traces, keys = [], []
     for (sh, lay, o), rec in zip(cases, recs):
@@ -109,6 +120,57 @@ def _run(ctx, base):
                      steps=[X.fmt_step(s) for s in steps_ok], verdict=verdict,
                      note="replay: ./check C12 --replay <this file> re-runs the request under strace"),
                 signature="C12:%s" % o)
+    # ---- first start on a storage location that does not exist yet
+    bad_start = []
+    for sr in starts:
+        o = sr["opname"]
+        if sr.get("error") or not sr.get("created"):
+            bad_start.append("%s: %s" % (o, sr.get("error") or "the storage location was not created"))
+            continue
+        ctx.case((o, "fresh-nested", tuple(sr["lay"])), nontrivial=True,
+                 sample=dict(request=o, status=sr["status"], steps=[X.fmt_step(s_) for s_ in sr["steps"][:12]]))
+        ctx.count("kind:Startup")
+        real_traces.append(sr["steps"])
+        keys.append((o, "fresh-nested", tuple(sr["lay"])))
+        if sr["verdict"] is not None and sr["status"] in B.SUCCESS:
+            ctx.violation("C12: first start on a storage location that does not exist (<existing>/a/b/st), then %s answered %s, but the "
+                          "system calls since start-up are not durable: %s (Root = the existing ancestor)" % (o, sr["status"], sr["verdict"]),
+                          dict(startup=o, request=B.http_of(B.all_ops()[o]), status=sr["status"], verdict=sr["verdict"],
+                               steps=[X.fmt_step(s_) for s_ in sr["steps"]], note="replay: ./check C12 --replay <this file>"),
+                          signature="C12:startup:%s" % o)
+    ctx.obligation("harness:startup-runs", not bad_start, "; ".join(bad_start[:3]))
+    # ---- EXDEV on the rename of an item move (collections on different file systems): whatever the server does then,
+    #      a success answer needs a durable trace (unchanged code: the request fails, nothing moved).  The rename and a retry of it fail.
+    xjobs, xmeta = [], []
+    for (sh, lay, o), rec in zip(cases, recs):
+        un = rec["un"]
+        if un.get("error") or not o.startswith("move_") or un["status"] not in B.SUCCESS:
+            continue
+        if ctx.quick and not (o in ("move_cross", "move_over_cross", "move_same") and sh == "warm" and tuple(lay) == (False, False)):
+            continue
+        for i, (st, ok) in enumerate(un["steps"]):
+            if ok and st[0] == "Rename" and X.is_data(st[1]) and X.is_data(st[2]):
+                name, ordinal = un["sys"][i][0]
+                xjobs.append(dict(base=base, shape=sh, lay=lay, opname=o, tag="x-%s-%d%d-%s-%d" % (sh, lay[0], lay[1], o, i),
+                                  inject=("fault", "EXDEV", name, ordinal), pre_abs=un["pre_abs"], post_abs=un["post_abs"],
+                                  list_before=un["list_before"], list_after=un["list_after"], names=un["names"],
+                                  contents=un["contents"], durable_request=True, span=2))
+                xmeta.append((o, sh, tuple(lay), X.fmt_step(st)))
+    if xjobs:
+        ctx.log("EXDEV on item renames: %d runs" % len(xjobs))
+        with C.pool() as p:
+            xres = p.map(B.inject_run, xjobs, chunksize=1)
+        for job, (o, sh, lay, what), res in zip(xjobs, xmeta, xres):
+            ctx.case(("rename-exdev", o, sh, lay, what), nontrivial=True, sample=dict(request=o, failing=what, status=res["status"]))
+            ctx.count("exdev:%s" % ("refused" if res["status"] not in B.SUCCESS else "answered-2xx"))
+            rd = res.get("request_durability") or {}
+            if res["hit"] and rd.get("verdict"):
+                ctx.violation("C12: %s on store '%s' (layout %s): [%s] fails with EXDEV, the request is answered %s but its system calls "
+                              "are not durable: %s" % (o, sh, lay, what, res["status"], rd["verdict"]),
+                              dict(request=B.http_of(B.all_ops()[o]), shape=sh, layout=list(lay), inject=list(job["inject"]),
+                                   failing=what, errno="EXDEV", status=res["status"], steps=rd.get("steps"), durable_request=True, span=2,
+                                   note="replay: ./check C12 --replay <this file>"),
+                              signature="C12:exdev:%s" % o)
     # ---- a failing fsync must abort the request: every fsync the durability of the trace depends on is made to fail
     fjobs, fmeta = [], []
     quick_kinds = ("put_new", "put_over", "delete_item", "move_cross", "move_over_cross", "putcoll_replace", "mkcalendar", "proppatch",
@@ -244,6 +306,12 @@ def replay(ctx, path):
         return 0
     base = C.make_base()
     try:
+        if r.get("startup"):
+            sr = B.startup_run((base, r["startup"]))
+            print("status", sr.get("status"), "verdict:", sr.get("verdict"), sr.get("error") or "")
+            for s_ in sr.get("steps") or []:
+                print("  ", X.fmt_step(s_))
+            return 1 if sr.get("verdict") else 0
         op = [k for k, v in B.all_ops().items() if B.http_of(v) == r["request"]]
         if not op:
             print("request not in the catalogue")
@@ -253,8 +321,15 @@ def replay(ctx, path):
             res = B.inject_run(dict(base=base, shape=r["shape"], lay=tuple(r["layout"]), opname=op[0], tag="replay",
                                     inject=tuple(r["inject"]), pre_abs=un["pre_abs"], post_abs=un["post_abs"],
                                     list_before=un["list_before"], list_after=un["list_after"], names=un["names"],
-                                    contents=un["contents"], durable_followups=bool(r.get("durable_followups"))))
+                                    contents=un["contents"], durable_followups=bool(r.get("durable_followups")),
+                                    durable_request=bool(r.get("durable_request")), span=r.get("span", 1)))
             print("failing:", r.get("failing"), r.get("errno"), "-> status", res["status"], "hit", res["hit"])
+            if r.get("durable_request"):
+                rd = res.get("request_durability") or {}
+                print("  request trace:", "durable" if not rd.get("verdict") else rd["verdict"])
+                for s_ in rd.get("steps") or []:
+                    print("    ", s_)
+                return 1 if rd.get("verdict") else 0
             if r.get("durable_followups"):
                 bad = [fd for fd in res.get("followup_durability") or [] if fd["verdict"]]
                 for fd in res.get("followup_durability") or []:
